@@ -16,6 +16,7 @@ inductive Cache
 structure St where
   typ : Typ := .model
   trans : Bool := false
+  xform : Bool := false        -- the transformer's Transform is not the identity
   dflt : Option V := none
   store : List (Str × V) := []
   cache : List (Str × Cache) := []
@@ -153,9 +154,16 @@ def judgeGet (c : Option Cache) (got : Option V) : String × Cache :=
   | some (.val _), none => ("?viol:resource-vanished-without-delete-event", now)
   | some (.val v), some g => (if sameVal v g then "?ok" else "?viol:stale-client:client=" ++ encVal v ++ ":fresh=" ++ encVal g, now)
 
+/-- the harness' non-identity `Transform`: collections get a leading `"T"`, models a member `_t` -/
+def tf (st : St) (v : V) : V :=
+  if !st.xform then v else
+  match v with
+  | .coll l => .coll (str "\"T\"" :: l)
+  | .model m => .model (mset m (str "_t") (str "1"))
+
 def served (st : St) (id : Str) : Option V :=
   match aget st.store id with
-  | some v => some v
+  | some v => some (tf st v)
   | none => st.dflt
 
 def mutate (st : St) (id : Str) (after : Option V) (impl : String) (kind : String) : St × String × String × String :=
@@ -165,7 +173,7 @@ def mutate (st : St) (id : Str) (after : Option V) (impl : String) (kind : Strin
     | _ => before.isSome
   if !okOp then (st, "err", if impl = "err" then "?ok" else "?viol:store-accepted-invalid-op", kind ++ "-err")
   else
-    let out := changeHandler st.typ st.dflt before after
+    let out := changeHandler st.typ st.dflt (before.map (tf st)) (after.map (tf st))
     let st' := { st with store := match after with
       | some v => aset st.store id v
       | none => st.store.filter (·.1 != id) }
@@ -179,7 +187,7 @@ def mutate (st : St) (id : Str) (after : Option V) (impl : String) (kind : Strin
       | .nothing => "silent" | .create => "createev" | .delete => "deleteev" | .change _ => "change"
       | .coll evs => (if evs.any (fun e => match e with | .remove _ => true | _ => false) then "rem" else "") ++
                      (if evs.any (fun e => match e with | .add _ _ => true | _ => false) then "add" else "")
-      | .badtype => "badtype") ++ (if st.dflt.isSome ∧ (before.isNone ∨ after.isNone) then "-dflt" else "")
+      | .badtype => "badtype") ++ (if st.xform then "-xform" else "") ++ (if st.dflt.isSome ∧ (before.isNone ∨ after.isNone) then "-dflt" else "")
     ({ st' with cache := cache }, m, if impl.isEmpty then "-" else spec, tag)
 
 def run (st : St) (args : List Str) (impl : String) : St × String × String × String :=
@@ -192,7 +200,7 @@ def run (st : St) (args : List Str) (impl : String) : St × String × String × 
       | t :: tr :: d :: drest =>
         let typ := if t = str "model" then Typ.model else .collection
         let dflt := if d = str "D" then (parseVal typ drest).map (·.1) else none
-        ({ typ := typ, trans := tr = str "T", dflt := dflt }, "ok", "-", "triv-cfg")
+        ({ typ := typ, trans := tr = str "T" ∨ tr = str "X", xform := tr = str "X", dflt := dflt }, "ok", "-", "triv-cfg")
       | _ => bad
     else if c = str "create" ∨ c = str "update" then
       match rest with
